@@ -74,6 +74,33 @@ def impl_eval(root, X):
     return L, LL, E
 
 
+def boundary_agreement(root, tab, points, width, rs):
+    from deeprob.spn.structure.leaf import Uniform, Isotonic
+    edges = {}
+    for o in tab.objs:
+        if isinstance(o, Uniform):
+            edges.setdefault(int(o.scope[0]), []).extend([float(o.start), float(o.start + o.width)])
+        if isinstance(o, Isotonic):
+            edges.setdefault(int(o.scope[0]), []).extend(float(b) for b in o.breaks)
+    if not edges:
+        return None, 0
+    dom = tab.domains(); scope = sorted(tab.root_scope())
+    rows = []
+    for v, es in edges.items():
+        for e in es[:8]:
+            base = {u: int(rs.choice(dom[u])) for u in scope}
+            x = G.np_row(base, width, points)
+            x[v] = np.float32(e)
+            rows.append(x)
+    X = np.array(rows, dtype=np.float32)
+    L, LL, E = impl_eval(root, X)
+    ok = np.abs(L - E) <= 1e-3 * np.maximum(np.abs(L), np.abs(E)) + 1e-30
+    if ok.all():
+        return None, len(rows)
+    i = int(np.argmin(ok))
+    return dict(row=[float(t) for t in X[i]], likelihood=float(L[i]), log_likelihood=float(LL[i]), exp_log_likelihood=float(E[i])), len(rows)
+
+
 def doms_coq(dom):
     return C.coq_list([f"({v}%nat, " + C.coq_list([C.zlit(x) for x in d]) + ")" for v, d in sorted(dom.items())])
 
@@ -165,6 +192,15 @@ def run(pid, tier, seed, replay, mode):
         for c in rows:
             m = sum(1 for v in scope if c.get(v) is None)
             dist["missing_cells"][m] = dist["missing_cells"].get(m, 0) + 1
+        # agreement clause ON the discontinuities of continuous leaves (support edges, histogram breaks): the model
+        # is silent there (which side a float comparison falls on is not the property's business) but likelihood and
+        # exp(log_likelihood) must still agree with EACH OTHER; rows are complete, other cells at ordinary points
+        if mode == "full" and points:
+            bad = boundary_agreement(root, tab, points, width, rs)
+            dist["boundary_rows"] = dist.get("boundary_rows", 0) + bad[1]
+            if bad[0] and dist.get("boundary_viol", 0) < 3:
+                dist["boundary_viol"] = dist.get("boundary_viol", 0) + 1
+                rep.violation(dict(kind="likelihood-and-log-likelihood-disagree-at-a-support-edge", circuit=tab.brief(), **bad[0]), True)
         # python-side clause of C02: a row with every variable missing has log-likelihood exactly 0
         if mode == "marg":
             for c, ll in zip(rows, LL):
